@@ -4,6 +4,7 @@ CONSTANTS
    DestNames <- Dests_a
    MaxSet = 2
    LvlFirst = {3}
+   LvlMid = {3}
    ClsFirst <- Cls_1_6_none
    LvlLast = {0, 1, 2, 3, 4, 5, 6}
    FullLast = TRUE
